@@ -270,11 +270,14 @@ func specAccepts(cfg string, checkers, declared []string, outs []*node, strict b
 	if len(declared) == 0 {
 		return true
 	}
-	ok := map[string]bool{hex.EncodeToString(targetHash(cfg, outs)): true}
+	ok := map[string]bool{}
+	if cfg != "" {
+		ok[hex.EncodeToString(targetHash(cfg, outs))] = true
+	}
 	for _, a := range checkers {
 		ok[hex.EncodeToString(checkerHash(a, outs))] = true
 	}
-	if !strict { // the liberal reading of the property: either form under any configured algorithm
+	if !strict && cfg != "" { // the liberal reading of the property: either form under any configured algorithm
 		ok[hex.EncodeToString(checkerHash(cfg, outs))] = true
 		for _, a := range checkers {
 			ok[hex.EncodeToString(targetHash(a, outs))] = true
@@ -611,7 +614,7 @@ func genInproc(r *lib.Run) []string {
 	}
 	// checkRuleHashes
 	seen := map[string]bool{}
-	for i := 0; i < r.N(1500, 20000); i++ {
+	for i := 0; i < r.N(1500, 12000); i++ {
 		shape := lib.Pick(r.Rng, []string{"F", "F", "D", "D", "M", "N"})
 		l := r.Rng.Intn(len(letters))
 		c := mkContent(shape + letters[l:l+1])
@@ -862,7 +865,27 @@ func runHistory(idx int, ops []string, scratch, plz string) ([]hres, []ofail, ma
 	var res []hres
 	var fails []ofail
 	counts := map[string]int{}
-	hist := strings.Join(ops, "\n")
+	// replayable text of this history: self-contained, i.e. with the digest tables of every content it mentions
+	var histOps []string
+	haveDig := map[string]bool{}
+	for _, op := range ops {
+		f := strings.Split(op, " ")
+		need := ""
+		switch {
+		case f[0] == "dig" && len(f) > 1:
+			haveDig[f[1]] = true
+		case f[0] == "def" && len(f) == 6:
+			need = f[4]
+		case (f[0] == "poison" || f[0] == "inplace") && len(f) == 3:
+			need = f[2]
+		}
+		if need != "" && !haveDig[need] && mkContent(need) != nil {
+			haveDig[need] = true
+			histOps = append(histOps, digLine(mkContent(need)))
+		}
+		histOps = append(histOps, op)
+	}
+	hist := strings.Join(histOps, "\n")
 	bad := func(op string) { res = append(res, hres{op, "bad-op", false}) }
 	for _, op := range ops {
 		f := strings.Split(op, " ")
@@ -1026,12 +1049,18 @@ func runHistory(idx int, ops []string, scratch, plz string) ([]hres, []ofail, ma
 				if cacheAfter != cacheBefore {
 					fails = append(fails, ofail{"failed-output-stored-in-cache", hist + "\n# at: " + op + ": cache " + cacheBefore + " -> " + cacheAfter})
 				}
-				// completeness: the action's (right) outputs are declared in a form the code documents — and this build did
-				// not go through a rejected cache restore with the hash function outside the checkers (stale-memo corner)
-				staleCorner := cacheOn && cacheBefore != "" && !contains(cf.checkers, cf.cfg)
-				if specAccepts(cf.cfg, cf.checkers, d.declared, right.outs, true) && !staleCorner {
+				// completeness: a declared value that is a checker-form digest of the action's outputs must be accepted; one
+				// that only matches the hash function's target hash is compared through the first comparison, which uses the
+				// hash memoised for a rejected cache restore in the same process (stale-memo corner, modelled: C35_corner_stale_memo)
+				viaCheckers := acceptsVia(cf.checkers, d.declared, right.outs)
+				viaFirst := specAccepts(cf.cfg, nil, d.declared, right.outs, true)
+				rejectedRestore := cacheOn && cacheBefore != ""
+				switch {
+				case viaCheckers, viaFirst && !rejectedRestore:
 					fails = append(fails, ofail{"correct-hash-rejected", hist + "\n# at: " + op + ": the outputs the action produces are declared, build failed: " +
 						strings.ReplaceAll(out, "\n", " | ")})
+				case viaFirst:
+					counts["e2e:stale-memo-corner"]++
 				}
 			}
 		default:
@@ -1039,6 +1068,19 @@ func runHistory(idx int, ops []string, scratch, plz string) ([]hres, []ofail, ma
 		}
 	}
 	return res, fails, counts
+}
+
+// acceptsVia: some declared value is the checker-form digest of outs under one of the checkers.
+func acceptsVia(checkers, declared []string, outs []*node) bool {
+	for _, a := range checkers {
+		v := hex.EncodeToString(checkerHash(a, outs))
+		for _, d := range declared {
+			if unprefixSpec(d) == v {
+				return true
+			}
+		}
+	}
+	return false
 }
 
 func contains(xs []string, x string) bool {
@@ -1270,6 +1312,9 @@ func corpusFiles() map[string][]string {
 			"wipe", "poison t0 Fb", "build t0",
 			"# default configuration: a poisoned entry is rejected, the target rebuilt, the entry healed",
 			"reset", def, "cache 1", "def t1 F 0 Fa " + hl(h("sha256", "Fa")), "build t1", "wipe", "poison t1 Fb", "build t1", "wipe", "build t1",
+			"# same corner in the DEFAULT configuration: lone directory declared by its `plz hash` value (double hash) + poisoned entry",
+			"reset", def, "cache 1", dig("Dc"), dig("De"),
+			"def t5 D 0 Dc " + hl(h("sha256", "Dc")), "build t5", "wipe", "poison t5 De", "build t5", "build t5",
 			"# lone directory: direct hash under a checker accepted, double hash only under the hash function",
 			"reset", def, "cache 0", dig("Da"),
 			"def t2 D 0 Da " + hl(ch("sha1", "Da")), "build t2",
@@ -1330,7 +1375,7 @@ func main() {
 	} else {
 		ops = genInproc(r)
 		g := &hgen{r: r.Rng, run: r, vg: &valueGen{r.Rng, r}}
-		for i := 0; i < r.N(36, 700); i++ {
+		for i := 0; i < r.N(36, 320); i++ {
 			ops = append(ops, g.history(4+r.Rng.Intn(5))...)
 		}
 	}
